@@ -310,6 +310,53 @@ def repeated_registration(col, contract):
                                instances, contract, label)
 
 
+def explicit_false_survives_reregistration(col, contract):
+    """an operation registered as False ("not supported", although the type could do it) stays unsupported for the type and - when
+    not exact - its subclasses, also after the type is registered AGAIN by a call that does not name that operation; what that call
+    does name takes effect"""
+    for default_types in (True, False):
+        for exact in (False, True):
+            class Sealed(list):
+                __slots__ = ()
+
+            class SealedChild(Sealed):
+                __slots__ = ()
+            g = Glommer(register_default_types=default_types)
+            g1 = lambda o, k: ('g1', list.__getitem__(o, int(k)))
+            g2 = lambda o, k: ('g2', list.__getitem__(o, int(k)))
+            if exact:
+                g.register(list, get=lambda o, k: ('list', o[int(k)]), iterate=iter)
+            g.register(Sealed, get=g1, iterate=False, assign=False, delete=False, exact=exact)
+            for stage in ('registered-once', 'registered-again'):
+                if stage == 'registered-again':
+                    g.register(Sealed, get=g2, exact=exact)
+                for cls in (Sealed, SealedChild):
+                    covered = cls is Sealed or not exact
+                    for op, spec in (('iterate', [T]), ('assign', Assign('0', 9)), ('delete', Delete('0')), ('get', '0')):
+                        inst = cls([1, 2])
+                        got = call(g.glom, inst, spec)
+                        col.case(('explicit-false', default_types, exact, stage, cls.__name__, op), True)
+                        col.count('api_lookups')
+                        col.count('explicit_false_lookups')
+                        if not covered:
+                            continue      # (what a subclass of an exactly registered type falls back to is decided by the other batteries)
+                        if op == 'get':
+                            tag = 'g1' if stage == 'registered-once' else 'g2'
+                            ok = got.ok and got.value == (tag, 1)
+                        else:
+                            ok = not got.ok and isinstance(got.exc, UnregisteredTarget) and list(inst) == [1, 2]
+                        if not ok:
+                            col.violation('C13/operation-registered-as-False-comes-back:%s:%s' % (op, stage),
+                                          'Glommer(register_default_types=%s): register(Sealed, get=g1, iterate=False, assign=False, delete=False%s)%s; '
+                                          '%s on a %s instance gave %r (instance now %r)'
+                                          % (default_types, ', exact=True' if exact else '', ', then register(Sealed, get=g2)' if stage == 'registered-again' else '',
+                                             op, cls.__name__, got, list(inst)), None)
+            if contract.disagreements:
+                d = contract.disagreements[0]
+                col.violation('C13/contract:%s:explicit-false' % d['op'], 'get_handler post-condition failed: %s' % (d,), d)
+                del contract.disagreements[:]
+
+
 def ephemeral_classes(col, contract):
     """classes created at run time, looked up once and dropped (and collected), in turn of different kinds, on ONE registry
     without any register() call in between: each lookup is decided by the class at hand, whatever was looked up before at
@@ -579,6 +626,7 @@ def run(ctx):
             isolation(col, rng)
             reregistration(col, contract)
             repeated_registration(col, contract)
+            explicit_false_survives_reregistration(col, contract)
             ephemeral_classes(col, contract)
             created_levels_use_the_calls_registry(col)
         fams = families()
